@@ -127,6 +127,31 @@ func c07Run(c *core.Ctx) *core.Result {
 		fixGroups(prior)
 		pk = "stale-readonly-group"
 	}
+	// a populated directory of the old destination that the source replaces
+	// by a symlink which cannot be walked through (a loop, a directory the
+	// receiver may not enter) or which leads out of the destination: more
+	// entries than the destination walker can be ahead of the writer, so the
+	// walker still visits names of the directory when it is gone
+	if R2 := core.NewRand(core.Mix(c.Seed, "C07-replaced-dir", c.Index)); !fanout && src.Get("zr") == nil && R2.P(1, 25) {
+		own := uint32(0)
+		if unpriv {
+			own = 1234
+		}
+		tg := core.Pick(R2, []string{"zr", "zr", "../dest/zr/x", "/", "/root"})
+		src.Put(tree.Entry{Path: "zr", Type: tree.Symlink, Perm: 0777, UID: own, GID: own, Mtime: 1e18 + 5, Target: tg})
+		prior.Remove("zr")
+		prior.Put(tree.Entry{Path: "zr", Type: tree.Dir, Perm: 0755, UID: own, GID: own, Mtime: 1e18})
+		for i, n := 0, R2.Range(140, 400); i < n; i++ {
+			e := tree.Entry{Path: fmt.Sprintf("zr/c%04d", i), Type: tree.Dir, Perm: 0755, UID: own, GID: own, Mtime: 1e18}
+			if R2.P(1, 2) {
+				e.Type, e.Perm, e.Data = tree.File, 0644, []byte("old")
+			}
+			prior.Entries = append(prior.Entries, e)
+		}
+		prior.Sort()
+		pk += "+replaced-dir->" + tg
+		r.Count("sessions_replacing_a_populated_directory_by_a_symlink", 1)
+	}
 	if unpriv {
 		for i := range prior.Entries {
 			if e := &prior.Entries[i]; e.Type == tree.Dir {
